@@ -119,6 +119,8 @@ def v9_template(rng, tid, nfields=None, lossless=False, common=False):
         else:
             n, ty, w = pick_field(rng, V9_BY_TY, lossless=lossless)
         fields.append({"typ": n, "len": w})
+    if sum(f["len"] for f in fields) == 0:
+        fields[0] = {"typ": 1, "len": 4}      # a record must occupy at least one byte
     return {"id": tid, "fieldCount": len(fields), "fields": fields}
 
 
